@@ -101,7 +101,8 @@ func worldFor(seed int64, domain string) *gen.World {
 
 func opOptionsFor(domain string, w *gen.World) gen.OpOptions {
 	o := gen.OpOptions{MaxDepth: 4, HelperNextToFragment: true, Aliases: true, InlineFrags: true, NamedFrags: true, Typename: true, Variables: true, Mutation: true, Directives: true}
-	o.VarDefaults = true // variables with a declared default and no value sent (since the fix of C02-client-default)
+	o.VarDefaults = true   // variables with a declared default and no value sent (since the fix of C02-client-default)
+	o.DirectiveVars = true // @skip/@include(if: $v) on fields (since the fix of C02-directive-variable)
 	o.IDs = w.Store.IDs()
 	o.IDsByType = map[string][]string{}
 	for _, t := range w.NodeType {
